@@ -31,6 +31,15 @@ CHECKS = {
  "C04": ("exploration", "exhaustive matrix of tiny programs (target type x value descriptor x context, operator table, literal inference over all element multisets and permutations) judged by transcribed specification rules; acceptance and printed typeof observed on the real parser/evaluator",
          "Every cell of the assignability matrix over all types up to nesting depth 1 (quick) / 2 (thorough), seven contexts, 13 operators over all ordered type pairs with variable and constant operands, unary/index/slice/field/assertion/condition/range contexts and the inferred type of array and map literals for every multiset of 2-3 element kinds in every order (and repeated runs) is executed once.",
          "Oracle is a transcription of docs/spec.md; cells the documents leave open are counted and not judged (see evidence).", "DESIGN.md §7 C04"),
+ "C05": ("exploration", "single-edit rejection monitor: valid generated base + one rule-breaking edit at every applicable line; recording platform must stay empty; real evy run observed for stdout/stderr/status/SVG file",
+         "Each base program (effects at the very start and in every block, functions, a handler, graphics) receives every applicable edit of a 24-kind catalogue at every line; Evaluator.Run must return located parser errors, perform no Platform call and no evaluation step; a sample goes through evy run with and without --svg-out.",
+         "Base programs come from the C10 generator; an accepted edit or a rejected base is reported, never skipped.", "DESIGN.md §7 C05"),
+ "C08": ("exploration", "repetition monitor: identical inputs re-executed R times in-process (Go's randomised map iteration as adversarial schedule) and in fresh evy processes; byte equality of all observables",
+         "Programs built to have something to permute are observed 24 (quick) / 104 (thorough) times each with fresh parser and evaluator, plus fresh evy run --rand-seed --svg-out - processes; parse error text, formatted text, platform trace and result must be byte-identical.",
+         "Repetition counts derived from the measured map-order distribution of the image's Go toolchain.", "DESIGN.md §7 C08"),
+ "C15": ("exploration", "metamorphic monitor (events vs equivalent procedure calls on the same evaluator) plus reference trace monitor; handler entry counting",
+         "Random handler programs and event sequences (length <= 30, hostile payloads) are delivered through HandleEvent after Eval; the cumulative trace must equal that of the program with handlers rewritten as procedures and events as calls, and that of the reference interpreter; one entry marker per delivered event; locals start afresh.",
+         "Events without a declared handler are not delivered (as pkg/wasm does).", "DESIGN.md §7 C15"),
  "C06": ("exploration", "metamorphic round-trip monitor: tokens, re-acceptance, tree and recorded behaviour of Format(s) vs s; evy fmt vs library",
          "For thousands of accepted sources (corpus, decorated with comments/blank lines/tabs, accepted token mutants, generated programs) compares the non-whitespace token sequence, the syntax tree and the recorded Platform trace of the formatted text with those of the source, and the real evy fmt with Program.Format.",
          "Tokens compared by (type,value); behaviour compared under fixed inputs/seed with positions stripped; lexer positions trusted only as far as C03 checks them.", "DESIGN.md §7 C06"),
